@@ -392,7 +392,13 @@ func (s *Session) detachSession(fromTopic string) {
 }
 
 func (s *Session) stopSession(data any) {
-	s.stop <- data
+	// The session can be stopped from several places concurrently (eviction, account deletion,
+	// connection cleanup) while the write loop which reads this channel may be gone already:
+	// never block here, one pending stop request is enough.
+	select {
+	case s.stop <- data:
+	default:
+	}
 	s.maybeScheduleClusterWriteLoop()
 }
 
